@@ -29,6 +29,10 @@ CHECKS = {
          "stub retrieval returns nil on a fault (the real RetrieveRule/RetrieveNetworkRule path is checked in the storage harness); closed-file behaviour of the OS outside; engine; z3"),
  "C02": ("NewDNSEngine+MatchRequest with real lookup table, network engine tables, host-level filter and pooled request on 0..2 symbolic hosts-file rules and 0..2 symbolic network rules against the reference resolution (documented host-level predicate, Match on a fresh request, GetDNSBasicRule class, family split, matched flag); IsHostLevelNetworkRule == documented predicate for all option words",
          "scanner/storage stubbed as perfect; literal-pattern stub; hash uninterpreted (collision-dependent counterexamples noted, not replayable); pooled request arbitrary; PSL model; engine; z3"),
+ "C13": ("one inductive step per piece of hidden state from an arbitrary valid pre-state: pooled request with arbitrary contents, rule cache with any subset materialised, lazily compiled pattern warm vs cold, verdict evaluation with spare capacity in the caller slices (no sharing, repeatable), network engine queried before/after another query",
+         "representation invariants stated in the evidence; stubs as C01/C02; engine; z3"),
+ "C15": ("CosmeticEngine.Match (built by the real NewCosmeticEngine over rules parsed by the real parser: every single rule and ordered pair of a 15-rule menu plus triples) for a symbolic hostname and symbolic flags against the reference (CosmeticRule.Match over all rules minus matching exceptions with equal content), selectors filed generic/specific; GetCosmeticResult passes exactly the three option bits",
+         "scanner stubbed as perfect; PSL model; engine; z3"),
  "C16": ("unbounded in the fields the function reads (64-bit option word, 32-bit mask, exception flag fully symbolic under the parser's representation invariant); counterexamples replayed from rule text through the real parser",
          "InvRule on option words (validated natively on the repo's own rule corpus); go/ssa lowering; engine; z3"),
 }
